@@ -360,7 +360,8 @@ class Machine:
              '    gv_o._gin_ret = gv_rec(gv_sel, gv_l, gv_dflts)\n    return gv_o\n' % (name, ', '.join(['cls'] + params)))
     if methods:
       self.nmod = getattr(self, 'nmod', 0) + 1
-      env['__name__'] = 'gvmod%d' % self.nmod      # class and methods must share a module to count as methods
+      # class and methods must share a module to count as methods; 'pymod': several classes defined in ONE Python module
+      env['__name__'] = c.get('pymod') or 'gvmod%d' % self.nmod
     exec(compile(src, '<probe %s>' % sel, 'exec'), env)  # pylint: disable=exec-used
     fn = env[name]
     if not methods:
@@ -694,6 +695,17 @@ def gen_regs(rng, n=None, lists=0.3, allow_req=True, rich=True, sels=None, shape
         if names and rng.random() < lists and not reqd:
           m['allow' if rng.random() < 0.5 else 'deny'] = rng.sample(names, rng.randint(1, len(names)))
         regs.append(m)
+      if rng.random() < 0.4:
+        # a second class of the SAME Python module with a method of the same name (the two methods had the same
+        # selector before their classes were registered)
+        other = rng.choice([h for h in ['m.Kls', 'pkg.Kls', 'n.m.Other', 'pkg.sub.Wrk'] if h != holder and all(c['sel'] != h for c in regs)])
+        first = [c for c in regs if c.get('holder') == holder]
+        for c in regs:
+          if c['sel'] == holder:
+            c['pymod'] = 'gvshared'
+        regs.append({'sel': other, 'sig': gen_sig(rng, allow_req, rich), 'allow': [], 'deny': [], 'shape': 'cls_init', 'pymod': 'gvshared'})
+        regs.append({'sel': other + '.' + first[0]['sel'].split('.')[-1], 'sig': gen_sig(rng, allow_req, rich), 'allow': [], 'deny': [],
+                     'shape': 'method', 'holder': other})
   return regs
 
 
